@@ -140,6 +140,13 @@ def clientCase (hdr : String) (lines : List String) : List String :=
           else (out ++ [x], seen)) ([], [])).1
       let iNorm := dropRepeats iNorm
       let mStr := dropRepeats mStr
+      -- Close(): whether the receive loop ends by itself (the DISCONNECT reply: nil) or by the connection being
+      -- closed under its pending read is a race between two goroutines runnable at the same instant
+      let hasClose := evs.any fun (_, e) => match e with | .api _ .close => true | _ => false
+      let closeNorm := fun (l : List (Nat × String)) =>
+        if hasClose then l.map fun (t, s) => if s == "done ok" || s == "done closed" then (t, "done ok|closed") else (t, s) else l
+      let iNorm := closeNorm iNorm
+      let mStr := closeNorm mStr
       -- 1. datagrams: exact order and time
       let snI := iNorm.filter fun (_, s) => s.startsWith "sn "
       let snM := mStr.filter fun (_, s) => s.startsWith "sn "
